@@ -138,6 +138,8 @@ def judge_copy(ctx, spec, rng):
         ks = rng.sample(sorted(vv), 2)
         ovs.append({k: vv[k] for k in ks})
     ovs.append({'type': m.type})
+    ovs.append({'type': ''.join(list(m.type))})                    # equal, not the same str object
+    ovs.append({'type': ''.join(list(m.type)), 'time': 9})
     ovs += [{k: v} for k, v in invalid_values(spec)]
     for ov in ovs:
         s = snap(m)
@@ -241,8 +243,19 @@ def judge_freeze(ctx, spec, rng):
             ctx.fail('thaw(freeze(m)) == m', f'thawed-not-mutable:{key}', lambda: case(k), repr(exc))
         ctx.check('no aliasing after copy/freeze/thaw', same(f2, sf2), f'alias:thawed->frozen:{key}',
                   lambda: case(k), None)
-    t2 = thaw_message(m2)          # thawing an unfrozen message gives an equal message
-    ctx.check('thaw(freeze(m)) == m', t2 == m2 and type(t2) is cls, f'thaw-unfrozen:{key}', case, None)
+    t2 = thaw_message(m2)          # thawing an unfrozen message gives an equal message - a new one
+    ctx.check('thaw(freeze(m)) == m', t2 == m2 and type(t2) is cls and t2 is not m2, f'thaw-unfrozen:{key}', case,
+              'same object' if t2 is m2 else None)
+    s2 = snap(m2)
+    for k, v in vv.items():
+        if spec[0] == 'unk' and k == 'type_byte':
+            continue
+        try:
+            setattr(t2, k, v)
+        except Exception:
+            pass
+    ctx.check('no aliasing after copy/freeze/thaw', same(m2, s2), f'alias:thaw-unfrozen:{key}', case, None)
+    m2 = build(spec)
     # copy of a frozen message stays frozen and equal
     fc = f2.copy()
     ctx.check('copy() == original, same class, new object', type(fc) is type(f2) and fc == f2,
@@ -253,6 +266,19 @@ def judge_freeze(ctx, spec, rng):
         ok = (twin == f2 and hash(twin) == hash(f2) and {f2: 1}[twin] == 1 and twin in {f2}
               and len({twin, f2}) == 1)
         ctx.check('equal frozen => equal hash and dict key', ok, f'hash:{key}', case, None)
+        # having been hashed changes nothing: still equal to the original and to an unhashed twin,
+        # thaws and copies as before
+        fresh = freeze_message(build(spec))
+        ok = (f2 == build(spec) and f2 == fresh and thaw_message(f2) == build(spec)
+              and f2.copy() == fresh and same(thaw_message(f2), snap(build(spec))))
+        ctx.check('equal frozen => equal hash and dict key', ok, f'hashed-differs:{key}', case,
+                  lambda: sorted(vars(f2)))
+        try:
+            c2 = f2.copy(time=3)
+            ctx.check('copy(**ov) == fresh construction', c2 == fresh_with(spec, {'time': 3}),
+                      f'hashed-copy:{key}', case, None)
+        except Exception as exc:
+            ctx.fail('copy(**ov) == fresh construction', f'hashed-copy-raised:{key}', case, repr(exc))
         tm = spec[3]
         for alt in ((float(tm),) if isinstance(tm, int) and abs(tm) < 2 ** 53 else
                     (int(tm), Fraction(tm)) if isinstance(tm, float) and tm == int(tm) else (Fraction(tm),)
